@@ -445,7 +445,7 @@ func streamC02Proc(env *runEnv) {
 					}
 					res := e.runProcess(cfg, items)
 					env.count(fmt.Sprintf("c02proc.ext%d", ext))
-					env.emit("process", cfg.bits(), redirBits(cfg.redir), strconv.Itoa(cfg.idle), e.live(), itemsString(items), res.obs)
+					env.emit("process16", cfg.bits(), redirBits(cfg.redir), strconv.Itoa(cfg.idle), e.live(), itemsString(items), res.obs)
 					for _, b := range e.pool {
 						b.reset()
 					}
